@@ -2,7 +2,7 @@ use std::io::{Seek, SeekFrom, Write};
 
 use crate::bsp::{BspAxisType, BspNodeExt};
 use crate::chunk::ChunkHeader;
-use crate::error::Result;
+use crate::error::{Result, WmoError};
 use crate::parser::chunks;
 use crate::types::{Color, Vec3};
 use crate::version::{WmoFeature, WmoVersion};
@@ -473,6 +473,20 @@ impl WmoWriter {
     fn write_portals<W: Write>(&self, writer: &mut W, portals: &[WmoPortal]) -> Result<()> {
         if portals.is_empty() {
             return Ok(());
+        }
+
+        // MOPT addresses MOPV with a 16-bit start index and a 16-bit vertex count:
+        // refuse portals that do not fit instead of writing truncated values
+        let mut first_vertex = 0usize;
+        for portal in portals {
+            if first_vertex > u16::MAX as usize || portal.vertices.len() > u16::MAX as usize {
+                return Err(WmoError::InvalidFormat(format!(
+                    "portal with {} vertices starting at vertex {} does not fit the 16-bit MOPT fields",
+                    portal.vertices.len(),
+                    first_vertex
+                )));
+            }
+            first_vertex += portal.vertices.len();
         }
 
         // First write portal vertices (MOPV)
